@@ -661,7 +661,9 @@ def build_misc(d):
     elif k == 'rom_many_ports':
         # more read ports than one ROM instance allows: build_new_roms makes further instances behind the scenes, each of
         # which must be the same ROM (contents, padding)
-        rom = pyrtl.RomBlock(bitwidth=5, addrwidth=3, romdata=[3, 9, 17, 30, 1], name='rom', asynchronous=True, pad_with_zeros=True,
+        # (data for every address: reading it never depends on the padding, so no case splits; the instances' attributes are
+        #  compared by C01)
+        rom = pyrtl.RomBlock(bitwidth=5, addrwidth=3, romdata=[3, 9, 17, 30, 1, 0, 22, 5], name='rom', asynchronous=True, pad_with_zeros=True,
                              max_read_ports=2, build_new_roms=True)
         a, b = pyrtl.Input(3, 'a'), pyrtl.Input(3, 'b')
         for i, adr in enumerate((a, b, a, pyrtl.Const(6, 3), b)):      # (repeated address wires: no further case splits)
